@@ -200,8 +200,9 @@ PLANS["C04"] = {
             "pool (NaN, +-inf, -0, negative, denormal, pred/succ of the edge, 1e300) through ResizeOptions::crop + resize; buffers: nine buffer "
             "constructors with lengths required-2..required+2, byte offsets 0..7, 13 pixel types and sizes near 2^16/2^31/2^32 over short "
             "buffers; oracle = exact integer predicate (TwoSum for f64), accepted views must expose exactly their rectangle of identity tags; "
-            "a zero-area box may be accepted or rejected; non-trivial = every case; distinct = distinct descriptor",
-    "assumptions": ["zero-area boxes / empty buffers: the property is silent, either outcome is accepted (never a panic)"],
+            "an empty u32 box inside the image or on its edge must be accepted like any other; a zero-area f64 crop box makes resize "
+            "return Ok early (documented) whatever its position, so either outcome is accepted there; non-trivial = every case",
+    "assumptions": ["zero-area f64 crop boxes / empty buffers: either outcome is accepted (never a panic)"],
     "exhaustive": {"quick": True, "thorough": True},
     "quick": [step("rel", "firv-views", 0, sub="quads"), step("dbg", "firv-views", 0, sub="quads"),
               step("rel", "firv-views", 0, sub="boundary", shards=4), step("dbg", "firv-views", 0, sub="boundary", shards=4),
